@@ -81,6 +81,12 @@ type Entry struct {
 	Templ      int    `json:"templ,omitempty"`
 }
 
+// Decoy is an extra config file that must not be the one in use.
+type Decoy struct {
+	Dir  string `json:"dir"` // relative to the module root ("..", "../.." = above the module)
+	Name string `json:"name"`
+}
+
 type Case struct {
 	ModPath   string   `json:"modpath"`
 	PkgDir    string   `json:"pkgdir"`  // relative to the module root, "." = root
@@ -109,6 +115,16 @@ type Case struct {
 	// the package clause, 2 in the middle of the file (before the interfaces), 3 both.
 	LineAt  []int  `json:"line_at,omitempty"`
 	LineRef string `json:"line_ref,omitempty"` // e.g. grammar/greeter.y
+
+	// Decoys: byte-identical copies of the config file under the accepted search names in other
+	// directories (ancestors of the config directory, the same directory under the other name, or
+	// - when the file is named explicitly - anywhere on the way up from cwd). The search goes from
+	// cwd upwards, so the nearest directory holding a config stays the one in use.
+	Decoys []Decoy `json:"decoys,omitempty"`
+	// SchemaVictim > 0: the schema at the location template-schema resolves to for mock number
+	// (SchemaVictim-1) mod #mocks rejects the (empty) template-data, all other schemas accept:
+	// mockery must fail, which shows that this mock's own rendering of template-schema was used.
+	SchemaVictim int `json:"schema_victim,omitempty"`
 
 	// Entries, when non-empty, is written as the `configs:` list of every listed interface: one
 	// mock per (interface, entry). StructName and Template then belong to the entry.
@@ -647,11 +663,18 @@ func (g *G) fileExpr(many bool) []Part {
 	return ps
 }
 
-// schemaExpr: file:// + a path that may lie anywhere in the scratch tree; interface-specific
-// variables are not used (one schema applies to a whole output file).
+// schemaExpr: file:// + a path that may lie anywhere in the scratch tree. Interface-specific
+// variables may occur: every mock gets its own rendering (mocks sharing one output file with
+// different schemas are don't-care).
 func (g *G) schemaExpr() []Part {
 	atom := func() *Node {
-		switch g.n("schemaatom", 0, 3) {
+		switch g.n("schemaatom", 0, 6) {
+		case 4:
+			return v("InterfaceName")
+		case 5:
+			return v("Mock")
+		case 6:
+			return g.call("trimSuffix", g.call("base", v("InterfaceFile"), nil), []string{".go"})
 		case 0:
 			return v("SrcPackageName")
 		case 1:
@@ -809,6 +832,47 @@ func gen(t *rapid.T) Case {
 	}
 	c.TemplDir = g.pick("templdir", []string{".", "tmpl"})
 	c.TemplAbs = g.chance("templabs", 50)
+	if g.chance("decoy", 30) {
+		up := func(d string) string {
+			switch d {
+			case ".":
+				return ".."
+			case "..":
+				return "../.."
+			case "../..":
+				return ""
+			}
+			return filepath.Dir(d)
+		}
+		accepted := []string{".mockery.yaml", ".mockery.yml"}
+		type cand struct{ dir, name string }
+		var cands []cand
+		start := c.Cwd
+		if c.CfgMethod == "search" {
+			// the other accepted name beside the config file, and any accepted name above it
+			for _, n := range accepted {
+				if n != c.CfgName {
+					cands = append(cands, cand{c.CfgDir, n})
+				}
+			}
+			start = up(filepath.Clean(c.CfgDir))
+		}
+		for d := filepath.Clean(start); d != ""; d = up(d) {
+			for _, n := range accepted {
+				if !(filepath.Clean(d) == filepath.Clean(c.CfgDir) && n == c.CfgName) {
+					cands = append(cands, cand{d, n})
+				}
+			}
+		}
+		seenD := map[cand]bool{}
+		for i, n := 0, g.n("ndecoys", 1, 2); i < n && len(cands) > 0; i++ {
+			k := cands[g.n("decoyidx", 0, len(cands)-1)]
+			if !seenD[k] {
+				seenD[k] = true
+				c.Decoys = append(c.Decoys, Decoy{Dir: k.dir, Name: k.name})
+			}
+		}
+	}
 	if g.chance("cfgkey", 30) {
 		c.CfgKey = g.pick("cfgkeykind", []string{"self-name", "self-abs", "other-rel", "other-abs", "missing-rel", "missing-abs"})
 	}
@@ -891,6 +955,15 @@ func gen(t *rapid.T) Case {
 			c.Schema = &Param{Level: "default", Expr: []Part{{K: "act", N: v("Template")}, {K: "lit", S: ".schema.json"}}}
 		} else {
 			c.Schema = &Param{Level: lv, Expr: g.schemaExpr()}
+			if many && g.chance("schemaperiface", 50) {
+				// one schema per interface: every mock must get its own rendering
+				e := c.Schema.Expr
+				suffix := e[len(e)-1]
+				c.Schema.Expr = append(append(append([]Part{}, e[:len(e)-1]...), Part{K: "lit", S: "-"}, g.act(v("InterfaceName"))), suffix)
+			}
+		}
+		if g.chance("schemavictim", 50) {
+			c.SchemaVictim = g.n("victim", 1, 4)
 		}
 	}
 	if flavour == "error" {
@@ -1167,6 +1240,23 @@ func (c Case) classify() (fp string, classes []string, kind verdictKind, why str
 	} else {
 		classes = append(classes, "ifacedir=nested")
 	}
+	for _, d := range c.Decoys {
+		dd := filepath.Join(l.mod, d.Dir)
+		switch {
+		case dd == l.cfgDir:
+			classes = append(classes, "decoy-config=same-dir-other-name")
+		case under(l.cfgDir, dd):
+			classes = append(classes, "decoy-config=ancestor/"+c.CfgName+"<-"+d.Name)
+			if c.CfgMethod == "search" {
+				classes = append(classes, fmt.Sprintf("decoy-config=ancestor/search/start-depth=%d", strings.Count(strings.TrimPrefix(l.cwd, l.cfgDir), "/")))
+			}
+		default:
+			classes = append(classes, "decoy-config=nearer-than-explicit")
+		}
+	}
+	if c.Schema != nil && c.SchemaVictim > 0 {
+		classes = append(classes, "schema-victim")
+	}
 	if c.CfgKey != "" {
 		classes = append(classes, "config-key-in-file="+c.CfgKey, "config-key-in-file/"+c.CfgMethod)
 		if c.trigConfigDir() {
@@ -1258,10 +1348,11 @@ func (c Case) classify() (fp string, classes []string, kind verdictKind, why str
 		if st.vars["InterfaceDirRelative"] && !c.idrDefined() && kind == kOK {
 			kind, why = kDontCare, "InterfaceDirRelative-with-interface-outside-ConfigDir"
 		}
-		if name == "template-schema" {
-			for _, vn := range []string{"InterfaceDir", "InterfaceDirRelative", "InterfaceFile", "InterfaceName", "Mock", "StructName"} {
-				if st.vars[vn] && kind == kOK {
-					kind, why = kDontCare, "interface-variable-in-template-schema"
+		if len(c.Listed) == 0 && len(c.targets()) >= 2 {
+			for _, vn := range []string{"InterfaceFile", "InterfaceName", "Mock", "StructName"} {
+				if st.vars[vn] {
+					classes = append(classes, "unlisted>=2/"+name+"-interface-specific")
+					break
 				}
 			}
 		}
@@ -1423,11 +1514,24 @@ func run(c Case) *vh.Violation {
 		vh.WriteFiles(root, base)
 		vh.NewModule(l.mod, c.ModPath)
 		vh.WriteFiles(root, map[string]string{relTo(l.cfgFile): cfg})
+		for _, d := range c.Decoys {
+			vh.WriteFiles(root, map[string]string{relTo(filepath.Join(l.mod, d.Dir, d.Name)): cfg})
+		}
 		vh.WriteFiles(root, extra)
 		for _, d := range []string{l.cwd, l.cfgDir} {
 			if err := os.MkdirAll(d, 0o755); err != nil {
 				vh.Infra("mkdir %s: %v", d, err)
 			}
+		}
+	}
+	for _, d := range c.Decoys {
+		dd := filepath.Join(l.mod, d.Dir)
+		if !under(dd, root) || filepath.Join(dd, d.Name) == l.cfgFile ||
+			(d.Name != ".mockery.yaml" && d.Name != ".mockery.yml") ||
+			(c.CfgMethod == "search" && dd != l.cfgDir && under(dd, l.cfgDir) && under(l.cwd, dd)) {
+			// a decoy nearer to cwd than the config file would itself be the nearest config
+			vh.Invalid()
+			return nil
 		}
 	}
 	cfg1 := c.configYAML(l, false, p1, nil)
@@ -1438,6 +1542,9 @@ func run(c Case) *vh.Violation {
 			m[k] = v
 		}
 		m[relTo(l.cfgFile)] = cfg
+		for _, d := range c.Decoys {
+			m[relTo(filepath.Join(l.mod, d.Dir, d.Name))] = cfg
+		}
 		m["cmd.txt"] = fmt.Sprintf("cd %s && %s mockery %s\n", relTo(l.cwd), strings.Join(l.env, " "), strings.Join(l.args, " "))
 		return m
 	}
@@ -1498,6 +1605,9 @@ func run(c Case) *vh.Violation {
 			}
 		}
 		if b["ConfigDir"] == "" || resolve(l.cwd, b["ConfigDir"]) != l.cfgDir {
+			if len(c.Decoys) > 0 {
+				return bad("mockery/binding=ConfigDir/other-config-files-on-the-search-path/"+layoutKey+"/not-the-config-file-directory", "ConfigDir = %q (resolved against cwd: %s) but the nearest config file going up from cwd %s - the one in use - is %s (byte-identical copies: %v)", stripRoot(b["ConfigDir"]), stripRoot(resolve(l.cwd, b["ConfigDir"])), stripRoot(l.cwd), stripRoot(l.cfgFile), c.Decoys)
+			}
 			if c.CfgKey != "" {
 				return bad("mockery/binding=ConfigDir/config-key-in-file/"+layoutKey+"/not-the-config-file-directory", "the file in use contains config: %s; ConfigDir = %q (resolved against cwd: %s) but the config file used is %s", c.CfgKey, stripRoot(b["ConfigDir"]), stripRoot(resolve(l.cwd, b["ConfigDir"])), stripRoot(l.cfgFile))
 			}
@@ -1543,7 +1653,7 @@ func run(c Case) *vh.Violation {
 	defDir := []Part{{K: "act", N: v("InterfaceDir")}}
 	defPkg := []Part{{K: "act", N: v("SrcPackageName")}}
 	// one unit = one mock: (interface) or, with a configs: list, (interface, entry)
-	type want struct{ iface, path, pkg, sname, tpl string }
+	type want struct{ iface, path, pkg, sname, tpl, schema string }
 	wants := map[string]want{}
 	var units []string
 	extra := map[string]string{}
@@ -1585,15 +1695,8 @@ func run(c Case) *vh.Violation {
 				if c.Schema == nil {
 					continue
 				}
-				// the schema of the file this mock goes to; only Template can differ between units
-				sb := Bind{}
-				for k, v := range b {
-					sb[k] = v
-				}
-				for _, n := range []string{"InterfaceDir", "InterfaceDirRelative", "InterfaceFile", "InterfaceName", "Mock", "StructName"} {
-					sb[n] = ""
-				}
-				sv, _ := evalOf(c.Schema.Expr, sb)
+				// template-schema is rendered for this mock like every other templated value
+				sv, _ := evalOf(c.Schema.Expr, b)
 				if !strings.HasPrefix(sv, "file://") || !strings.HasSuffix(sv, ".json") {
 					vh.Invalid()
 					vh.Note("generated template-schema value is not a file URL: %q", stripRoot(sv))
@@ -1612,8 +1715,16 @@ func run(c Case) *vh.Violation {
 					}
 				}
 				extra[relTo(schemaPath)] = "{}\n"
+				w := wants[id]
+				w.schema = schemaPath
+				wants[id] = w
 			}
 		}
+	}
+	victim := ""
+	if kind == kOK && c.Schema != nil && c.SchemaVictim > 0 && len(units) > 0 {
+		victim = units[(c.SchemaVictim-1)%len(units)]
+		extra[relTo(wants[victim].schema)] = `{"type": "object", "required": ["c11-marker"]}` + "\n"
 	}
 	setup(cfg2, extra)
 	// nothing the expected outputs need may be occupied by an input
@@ -1708,12 +1819,6 @@ func run(c Case) *vh.Violation {
 	}
 
 	// ---- values --------------------------------------------------------------------------
-	if r2.Exit != 0 {
-		if c.Schema != nil && strings.Contains(r2.Stderr, "schema") {
-			return vh.Violate("mockery/"+feature("template-schema")+"/schema-not-found-where-the-value-points", "a permissive schema was placed at %s, where template-schema resolves by the documented bindings; mockery failed on the schema", stripRoot(schemaPath)).With(tree2, obs())
-		}
-		return vh.Violate("mockery/"+layoutKey+"/valid-expressions/exit", "all templated values are well-formed and stabilise, but mockery exited %d", r2.Exit).With(tree2, obs())
-	}
 	byPath := map[string][]string{}
 	for _, id := range units {
 		byPath[wants[id].path] = append(byPath[wants[id].path], id)
@@ -1721,8 +1826,8 @@ func run(c Case) *vh.Violation {
 	for _, names := range byPath {
 		seen := map[string]bool{}
 		for _, n := range names {
-			if wants[n].pkg != wants[names[0]].pkg || wants[n].tpl != wants[names[0]].tpl {
-				vh.DontCare("two-mocks-one-file-different-pkgname-or-template")
+			if wants[n].pkg != wants[names[0]].pkg || wants[n].tpl != wants[names[0]].tpl || wants[n].schema != wants[names[0]].schema {
+				vh.DontCare("two-mocks-one-file-different-pkgname-template-or-schema")
 				return nil
 			}
 			if seen[wants[n].iface] {
@@ -1731,6 +1836,22 @@ func run(c Case) *vh.Violation {
 			}
 			seen[wants[n].iface] = true
 		}
+	}
+	if victim != "" {
+		// the schema this mock's template-schema points to rejects the template-data
+		if r2.Exit == 0 {
+			return vh.Violate("mockery/"+feature("template-schema")+"/own-schema-not-applied", "the schema at %s, where template-schema resolves for mock %s, rejects the template-data (required key missing); mockery exited 0, so that mock was validated against some other schema", stripRoot(wants[victim].schema), victim).With(tree2, obs())
+		}
+		if !strings.Contains(r2.Stderr, "c11-marker") {
+			return vh.Violate("mockery/"+feature("template-schema")+"/failed-for-another-reason", "expected the rejecting schema of mock %s to be reported; mockery exited %d without mentioning it", victim, r2.Exit).With(tree2, obs())
+		}
+		return nil
+	}
+	if r2.Exit != 0 {
+		if c.Schema != nil && strings.Contains(r2.Stderr, "schema") {
+			return vh.Violate("mockery/"+feature("template-schema")+"/schema-not-found-where-the-value-points", "a permissive schema was placed at %s, where template-schema resolves by the documented bindings; mockery failed on the schema", stripRoot(schemaPath)).With(tree2, obs())
+		}
+		return vh.Violate("mockery/"+layoutKey+"/valid-expressions/exit", "all templated values are well-formed and stabilise, but mockery exited %d", r2.Exit).With(tree2, obs())
 	}
 	entryKey := ""
 	if len(entries) > 0 {
